@@ -264,6 +264,25 @@ FAMILIES = (
             'against the loop-header merges) or in the for iterable (evaluated once), while the copied source is '
             'reassigned in the body, plainly or under an if; the trip count is returned; limits never grow, so '
             'every loop terminates'),
+    Family(
+        name='ctx_arg', decorator=f'@fp.fpy(ctx={C_FP64})', params='n: fp.Real', argnames=('n',),
+        atoms=(
+            A('a = 1 / 3', '', 'a'),
+            A('a = 0.1 + 0.2', '', 'a'),
+            A('a = a * 3', 'a', 'a'),
+            A('b = a', 'a', 'b'),
+            A('b = -0.0 * 3', '', 'b'),
+        ),
+        wraps=(W('with', 'with fp.MPFloatContext(n, fp.RM.RTZ):', 'n'),
+               W('with', 'with fp.MPFixedContext(-n, fp.RM.RTP):', 'n'),
+               W('with', f'with {C_SMALL_RAZ}:')),
+        returns=(A('return a', 'a'), A('return b', 'b')),
+        maxdepth=2,
+        sizes={'quick': (4, 5), 'thorough': (6, None)},
+        n_pool={'quick': [2, 5], 'thorough': [1, 2, 3, 5, 8]},
+        aim='with blocks whose context is built from a run-time argument (precision / grid given by n), directly '
+            'under the declared function context and nested inside a statically known with: all-constant inexact '
+            'operations inside them must not be folded under the enclosing context'),
 )
 
 FAMILY_BY_NAME = {f.name: f for f in FAMILIES}
